@@ -161,6 +161,7 @@ def sim_calls(script, method, n):
 
 
 RCODE = {"ok": 0, "part": 3, "int": 4, "err": 5, "panic": 6, "zero": 7}
+BYTE_FORMATS = ("full", "compact", "pretty")      # record text modelled byte for byte (json: C14's model; opaque chunks here)
 
 
 def wexp_stats(w, acc=None, depth=0):
@@ -229,7 +230,7 @@ def shown_name(n):
 # what a thread's program makes reach the layer (independent bookkeeping of spans and scopes)
 
 class Em:
-    __slots__ = ("meta", "cs", "scope", "fields", "marker", "kind", "status", "nested", "top", "thread", "op", "uid", "abn_text", "jfields", "explicit")
+    __slots__ = ("meta", "cs", "scope", "fields", "marker", "kind", "status", "nested", "top", "thread", "op", "uid", "abn_text", "jfields", "explicit", "ctx_scope")
 
     def __init__(self):
         self.nested = []
@@ -237,6 +238,7 @@ class Em:
         self.marker = None
         self.abn_text = None
         self.explicit = False
+        self.ctx_scope = []
 
 
 def cs_meta(cs):
@@ -250,6 +252,7 @@ def build_event(case, t, opi, cs_idx, vals, scope, top, counter, explicit, ctx_s
     e.meta = cs_meta(cs)
     e.cs = cs_idx
     e.scope = scope
+    e.ctx_scope = ctx_scope
     e.kind = "event"
     e.top = top
     e.thread = t
@@ -806,7 +809,7 @@ def assign_faults(rng, case, p_record, panic=False, chooser=None):
             elif recs and rng.random() < p_record:
                 is_tuple = isinstance(e, tuple)
                 # partial accepts need the implementation's bytes to be the model's bytes (nothing masked)
-                partial = (fmt in ("full", "compact") and not o.get("ansi") and (is_tuple or e.status == "ok")
+                partial = (fmt in BYTE_FORMATS and not o.get("ansi") and (is_tuple or e.status == "ok")
                            and not (not is_tuple and e.kind == "close" and o.get("timer")))
                 if is_tuple:
                     partial = e[2] != "flush"
@@ -887,7 +890,7 @@ def gen_teefault_cases(rng):
             prog.append({"op": "direct", "text": "DIRECT %d" % mask, "method": m})
             dsel[len(prog) - 1] = mask
         fk = FAULT_KINDS[si % len(FAULT_KINDS):] + FAULT_KINDS[:si % len(FAULT_KINDS)]
-        partial_ok = fmt in ("full", "compact")
+        partial_ok = fmt in BYTE_FORMATS
         c = {"id": 0, "kind": "teefault", "format": fmt, "opts": {"ansi": False, "target": True, "level": True, "lie": si % 2 == 0, "span_events": []},
              "nsinks": 4, "sink_kinds": ["rec"] * 4, "writer": w, "callsites": cb.callsites, "threads": [prog], "global": False}
 
@@ -1038,11 +1041,11 @@ def coq_meta(m):
 
 
 def coq_scope(scope):
-    return "[" + "; ".join("Span %s [%s]" % (B(sp["name"]), "; ".join("[" + "; ".join("(%s, %s)" % (B(n), B(v)) for n, v in g) + "]" for g in sp["groups"]))
+    return "[" + "; ".join("Span %s [%s] %s" % (B(sp["name"]), "; ".join("[" + "; ".join("(%s, %s)" % (B(n), B(v)) for n, v in g) + "]" for g in sp["groups"]), B(sp["target"]))
                            for sp in scope) + "]"
 
 
-def coq_emission(case, cs_idx, vals, scope, ctx_scope=None):
+def coq_emission(case, cs_idx, vals, scope, ctx_scope=None, root=False):
     ctx_scope = scope if ctx_scope is None else ctx_scope
     cs = case["callsites"][cs_idx]
     parts = []
@@ -1073,6 +1076,8 @@ def coq_emission(case, cs_idx, vals, scope, ctx_scope=None):
             term = "(FPanic %s %s)" % (B(it[1]), B(it[2]))
         else:
             term = "(FErr %s %s)" % (B(it[1]), B(it[2]))
+    if case["format"] == "pretty" and root:      # which spans Pretty walks for an explicit root is read from the source
+        return "(Em %s (pscope true %s %s) %s)" % (coq_emeta(cs), coq_scope(scope), coq_scope(ctx_scope), term)
     return "(Em %s %s %s)" % (coq_emeta(cs), coq_scope(scope), term)
 
 
@@ -1157,7 +1162,9 @@ def model_ops(case, t):
                     sp["groups"].append([(op["f"], r)])
         elif o == "event":
             sc, _ = scope_of(op.get("parent"))
-            segs[-1][1].append("OpEvent %s" % coq_emission(case, op["cs"], op["vals"], sc, scope_of(None)[0]))
+            par = op.get("parent")
+            root = par is not None and (par < 0 or par >= len(stack))
+            segs[-1][1].append("OpEvent %s" % coq_emission(case, op["cs"], op["vals"], sc, scope_of(None)[0], root))
         elif o == "direct":
             segs.append(("direct", op["text"]))
             segs.append(("ops", []))
@@ -1445,6 +1452,16 @@ def check_thread(rep, c, case_min, t, items, calls, f9_counter):
                           {"case": case_min, "thread": t, "op": e.op, "marker": e.marker, "write": tx[:400],
                            "preceding_aborted_events": [{"op": a.op, "marker": a.marker} for a in aborts]},
                           finding="F9" if is_f9 else None)
+        elif c["format"] == "pretty" and e.kind == "event" and e.top and e.explicit and not e.scope and e.ctx_scope:
+            # an explicit ROOT emitted while spans are entered: which spans does the record claim it is in?
+            named = [l[len("    in "):] for l in mt.split("\n") if l.startswith("    in ")]
+            if named:
+                cur = [(sp["target"] + "::" if c["opts"].get("target") else "") + sp["name"] for sp in reversed(e.ctx_scope)]
+                is_f131 = len(named) == len(cur) and all(n == k or n.startswith(k + " with ") for n, k in zip(named, cur))
+                rep.violation("a Pretty record names span(s) %s for an event that is an explicit root (in no span)%s"
+                              % (named[:4], ": the thread's current spans" if is_f131 else ""),
+                              {"case": case_min, "thread": t, "op": e.op, "marker": e.marker, "write": tx[:400]},
+                              finding="F131" if is_f131 else None)
         if e.top and not unwound:
             aborts = []           # a completed top-level record: the buffer was cleared after it
     if pos != len(calls):
@@ -1644,7 +1661,7 @@ def run(ctx):
         for t in range(len(c["threads"])):
             segs = segments(per_case[cid][t])
             parts = []
-            if c["format"] in ("full", "compact"):
+            if c["format"] in BYTE_FORMATS:
                 th = "(Thr %s %s)" % (B("wk%02d" % t), B(o["tids"][t]))
                 O = "(Opts %s %s %s %s %s %s %s)" % tuple(cb_(opts.get(k)) for k in ("timer", "level", "tname", "tid", "target", "file", "line"))
                 SC = "(SpanCfg %s %s %s %s)" % tuple(cb_(k in opts.get("span_events", [])) for k in ("new", "enter", "exit", "close"))
@@ -1653,8 +1670,11 @@ def run(ctx):
                 for (kind, payload), (_, sp) in zip(mops, segs):
                     if kind == "ops":
                         if payload:
-                            parts.append("eval_thread_f %s %s %s %s %s %s [%s] %s" % (lie, "Full" if c["format"] == "full" else "Compact", O, SC, W, th, "; ".join(payload),
-                                                                                  coq_plans(c, completion_order(sp))))
+                            if c["format"] == "pretty":
+                                parts.append("eval_pretty_f %s %s %s %s %s [%s] %s" % (lie, O, SC, W, th, "; ".join(payload), coq_plans(c, completion_order(sp))))
+                            else:
+                                parts.append("eval_thread_f %s %s %s %s %s %s [%s] %s" % (lie, "Full" if c["format"] == "full" else "Compact", O, SC, W, th, "; ".join(payload),
+                                                                                      coq_plans(c, completion_order(sp))))
                     else:
                         parts.append("eval_direct_f %s %s %s %s" % (W, COQ_METHOD[sp[2]], B(sp[1]), coq_plan((c.get("plans") or {}).get(plan_key(sp)))))
             else:
@@ -1687,7 +1707,7 @@ def run(ctx):
             for t in range(len(c["threads"])):
                 mv = normalise_model(c, [tuple(x) for x in model[(cid, t)]])
                 calls = by_thread.get(t, [])
-                if c["format"] in ("full", "compact"):
+                if c["format"] in BYTE_FORMATS:
                     iv = encode_observed(c, calls)
                 else:
                     iv = opaque_observed(c, per_case[cid][t], calls)
